@@ -1222,6 +1222,281 @@ def logeinsum_underflow_known(ctx):
 
 
 # --------------------------------------------------------------------------------------
+# lazily built MarkovProduct, substituted while still lazy (renames mixed with values), then reinterpreted
+# --------------------------------------------------------------------------------------
+
+def _ls_value(kind, size, rng):
+    """a substitution value of the given kind for an input of the given size: ('num', k) | ('ten', [idx…])"""
+    if kind == "num":
+        return ("num", rng.randrange(size))
+    n = rng.choice([2, 3])
+    return ("ten", [rng.randrange(size) for _ in range(n)])
+
+
+def _ls_to_funsor(val, size, tname):
+    from funsor.terms import Number
+    if isinstance(val, str):
+        return val
+    if val[0] == "num":
+        return Number(val[1], size)
+    return Tensor(np.array(val[1], dtype=np.int64), OrderedDict([(tname, Bint[len(val[1])])]), size)
+
+
+def ls_oracle(axes, sizes, arr, calls):
+    """Simultaneous-substitution semantics on an explicit table.  axes: names of arr's axes; calls: list of dicts
+    name -> new name (str) | ('num', k) | ('ten', idx list, tensor input name).  Returns (names, sizes, table)."""
+    # a symbolic funsor: list of (axis reads) where each original axis is read through `reads[axis]`:
+    # ('in', input name) | ('num', k) | ('ten', idx, input name)
+    reads = [("in", a) for a in axes]
+    insz = {a: s for a, s in zip(axes, sizes)}
+    for call in calls:
+        new_reads = []
+        new_insz = {}
+        for rd in reads:
+            if rd[0] == "in" and rd[1] in call:
+                v = call[rd[1]]
+                if isinstance(v, str):
+                    rd2 = ("in", v)
+                    new_insz[v] = insz[rd[1]]
+                elif v[0] == "num":
+                    rd2 = ("num", v[1])
+                else:
+                    rd2 = ("ten", v[1], v[2])
+                    new_insz[v[2]] = len(v[1])
+            elif rd[0] == "ten" and rd[2] in call:
+                # substituting the index tensor's own input (only by a number / rename in this generator)
+                v = call[rd[2]]
+                if isinstance(v, str):
+                    rd2 = ("ten", rd[1], v)
+                    new_insz[v] = len(rd[1])
+                elif v[0] == "num":
+                    rd2 = ("num", rd[1][v[1]])
+                else:
+                    rd2 = ("ten", [rd[1][j] for j in v[1]], v[2])
+                    new_insz[v[2]] = len(v[1])
+            else:
+                rd2 = rd
+                if rd[0] == "in":
+                    new_insz[rd[1]] = insz[rd[1]]
+                elif rd[0] == "ten":
+                    new_insz[rd[2]] = len(rd[1])
+            new_reads.append(rd2)
+        reads, insz = new_reads, new_insz
+    names = sorted(insz)
+    out = np.empty([insz[n] for n in names] or [], dtype=object)
+    for pt in itertools.product(*[range(insz[n]) for n in names]):
+        env = dict(zip(names, pt))
+        idx = []
+        for rd in reads:
+            if rd[0] == "in":
+                idx.append(env[rd[1]])
+            elif rd[0] == "num":
+                idx.append(rd[1])
+            else:
+                idx.append(rd[1][env[rd[2]]])
+        if names:
+            out[pt] = arr[tuple(idx)]
+        else:
+            out[()] = arr[tuple(idx)]
+    return names, [insz[n] for n in names], out
+
+
+LS_RENAMES = ["p->c", "c->p", "swap", "fresh", "none"]
+
+
+def gen_lazy_subs(rng, tier, spec=None):
+    """spec = (rename kind, target of the value, value kind, calls, batch sub) or None for random."""
+    rk, target, vk, ncalls, bsub = spec or (rng.choice(LS_RENAMES), rng.choice(["other", "renamed-to", "both", "none"]),
+                                            rng.choice(["num", "ten"]), rng.choice([1, 2]),
+                                            rng.choice(["none", "num", "ten", "rename"]))
+    T = rng.randint(2, 5)
+    S = rng.choice([2, 2, 3])
+    B = rng.choice([2, 3]) if (bsub != "none" or rng.random() < 0.3) else 0
+    srname = rng.choice(list(SEMIRINGS))
+    inputs = [("time", T), ("p", S), ("c", S)] + ([("b0", B)] if B else [])
+    rng.shuffle(inputs)
+    kind = SEMIRINGS[srname][3]
+    data = gen_data(rng, tuple(s for _, s in inputs), kind)
+    rename = {"p->c": {"p": "c"}, "c->p": {"c": "p"}, "swap": {"p": "c", "c": "p"},
+              "fresh": {"p": "rp", "c": "rc"} if rng.random() < 0.5 else {"p": "rp"}, "none": {}}[rk]
+    values = {}
+    # names a value can go to: a step variable that is not itself renamed in this call ("other"), or the name a
+    # rename maps onto ("renamed-to": only meaningful when that name is still an input, i.e. p->c / c->p / swap)
+    if target in ("other", "both"):
+        for n in ("p", "c"):
+            if n not in rename:
+                values[n] = _ls_value(vk, S, rng)
+    if target in ("renamed-to", "both"):
+        for n in set(rename.values()):
+            if n in ("p", "c") and n not in values:
+                values[n] = _ls_value(vk, S, rng)
+    bvals = {}
+    if B and bsub == "num":
+        bvals["b0"] = ("num", rng.randrange(B))
+    elif B and bsub == "ten":
+        bvals["b0"] = _ls_value("ten", B, rng)
+    elif B and bsub == "rename":
+        bvals["b0"] = "rb"
+    # name the index tensors' inputs
+    k = 0
+    for dct in (values, bvals):
+        for n in list(dct):
+            if not isinstance(dct[n], str) and dct[n][0] == "ten":
+                dct[n] = ("ten", dct[n][1], f"i{k}")
+                k += 1
+    allsubs = {}
+    allsubs.update(rename)
+    for n, v in values.items():
+        if n not in allsubs or ncalls == 2:
+            allsubs.setdefault(n, v)
+    if ncalls == 1:
+        # one simultaneous call; a name cannot be both renamed and given a value
+        call = dict(rename)
+        for n, v in values.items():
+            if n not in call:
+                call[n] = v
+        call.update(bvals)
+        calls = [call]
+    else:
+        first, second = dict(rename), {}
+        for n, v in values.items():
+            (second if (n in first or rng.random() < 0.7) else first)[n] = v
+        for n, v in bvals.items():
+            (first if rng.random() < 0.5 else second)[n] = v
+        if rng.random() < 0.5 and not (set(first) & set(second)):
+            first, second = second, first
+        calls = [c_ for c_ in (first, second) if c_] or [{}]
+    return dict(T=T, S=S, B=B, sr=srname, inputs=inputs, data=data, calls=calls,
+                spec=(rk, target, vk, ncalls, bsub))
+
+
+LS_PY = """
+# replay for C10: lazily built MarkovProduct, substituted while lazy, then reinterpreted
+import numpy as np
+from collections import OrderedDict
+import funsor.ops as ops
+from funsor.domains import Bint
+from funsor.tensor import Tensor
+from funsor.terms import Variable, Number
+from funsor.interpretations import lazy
+from funsor.interpreter import reinterpret
+from funsor.sum_product import MarkovProduct
+inf = float("inf")
+data = np.array({data}, dtype=np.float64)
+trans = Tensor(data, OrderedDict({inputs_dom}))
+def val(v, size):
+    if isinstance(v, str): return v
+    if v[0] == "num": return Number(v[1], size)
+    return Tensor(np.array(v[1], dtype=np.int64), OrderedDict([(v[2], Bint[len(v[1])])]), size)
+sizes = {sizes}
+with lazy:
+    m = MarkovProduct(ops.{sum_op}, ops.{prod_op}, trans, Variable("time", Bint[{T}]), {{"p": "c"}})
+    e = MarkovProduct(ops.{sum_op}, ops.{prod_op}, trans, Variable("time", Bint[{T}]), {{"p": "c"}})
+e = reinterpret(e)                      # the eager product, substituted afterwards (reference)
+for call in {calls}:
+    with lazy:
+        m = m(**{{n: val(v, sizes.get(n, 0)) for n, v in call.items() if n in m.inputs}})
+    e = e(**{{n: val(v, sizes.get(n, 0)) for n, v in call.items() if n in e.inputs}})
+r = reinterpret(m)
+print(r); print(e)
+FAILS = isinstance(r, Tensor) and not (set(r.inputs) == set(e.inputs) and
+        np.allclose(r.align(tuple(e.inputs)).data, e.data, equal_nan=True))
+print("FAILS =", FAILS)
+"""
+
+
+def check_lazy_subs(ctx, c, use_driver=True):
+    sum_op, prod_op, wire, kind = SEMIRINGS[c["sr"]]
+    tol = 1e-9 if kind == "log" else 0.0
+    T, S, B = c["T"], c["S"], c["B"]
+    trans = Tensor(c["data"], OrderedDict((n, Bint[s]) for n, s in c["inputs"]))
+    time = Variable("time", Bint[T])
+    sizes = {"p": S, "c": S, "b0": B, "rp": S, "rc": S, "rb": B}
+    ctx.count("lazy-subs:" + "/".join(str(x) for x in c["spec"]))
+    wit = dict(T=T, S=S, B=B, sr=c["sr"], inputs=c["inputs"], data=c["data"].tolist(), calls=c["calls"])
+    # ---- oracle: the fold, then simultaneous substitution call by call
+    cc = dict(T=T, sizes=[S], bsizes=[B] if B else [], sr=c["sr"], inputs=c["inputs"], data=c["data"],
+              names={"time": "time", "prev": ["p"], "curr": ["c"], "batch": ["b0"] if B else []})
+    fold = np.empty(([B] if B else []) + [S, S], dtype=object)
+    reqs, bpts = [], list(itertools.product(*[range(B)] if B else []))
+    for b in bpts:
+        reqs.append(f"C10 fold {wire} {sx(step_matrices(cc, b))}")
+    if use_driver:
+        ans = ctx.driver.ask(reqs)
+    for i, b in enumerate(bpts):
+        if use_driver:
+            fk, fv = parse_mat(ans[i])
+            if fk != "value":
+                ctx.infra_errors.append(f"driver answered {ans[i][:200]}")
+                return
+        else:
+            fv = py_fold(c["sr"], step_matrices(cc, b))
+        for pi in range(S):
+            for ci in range(S):
+                fold[tuple(b) + (pi, ci)] = fv[pi][ci]
+    axes = (["b0"] if B else []) + ["p", "c"]
+    names, nsz, expected = ls_oracle(axes, ([B] if B else []) + [S, S], fold, c["calls"])
+    # ---- implementation
+    try:
+        with lazy:
+            m = MarkovProduct(sum_op, prod_op, trans, time, {"p": "c"})
+        for call in c["calls"]:
+            with lazy:
+                m = m(**{n: _ls_to_funsor(v, sizes.get(n, 0), v[2] if (not isinstance(v, str) and v[0] == "ten") else None)
+                         for n, v in call.items() if n in m.inputs})
+        r = reinterpret(m)
+    except (AssertionError, NotImplementedError, ValueError, KeyError, AttributeError, TypeError) as e:
+        ctx.count(f"lazy-subs:declined-{type(e).__name__}")
+        ctx.case(nontrivial_key=None)
+        return
+    try:
+        tab = table(r, list(zip(names, nsz)))
+    except (KeyError, ValueError) as e:
+        ctx.fail("input", "C10.lazy-subs-inputs", witness=wit, got=str(e), expected=str(names),
+                 python=_ls_snippet(c))
+        return
+    if tab is None:
+        ctx.count("lazy-subs:stays-lazy")
+        ctx.case(nontrivial_key=None)
+        return
+    if hasattr(r, "inputs") and set(r.inputs) != set(names):
+        ctx.count("lazy-subs:names-differ")
+    tab = futil.linear_view(tab, kind)
+    for pt in itertools.product(*[range(n) for n in nsz]):
+        e_ = expected[pt] if names else expected[()]
+        g_ = exact(tab[pt] if names else tab[()] if tab.shape == () else tab)
+        if not same_num(g_, e_, tol_for([[e_]], tol, ctx)):
+            ctx.fail("input", "C10.lazy-subs-ne-fold", witness=wit, expected=f"{dict(zip(names, pt))}: {e_}",
+                     got=str(g_), python=_ls_snippet(c))
+            return
+    ctx.case(sample=dict(kind="lazy-subs", spec=c["spec"], calls=c["calls"], sr=c["sr"]),
+             nontrivial_key=("lazy-subs", repr(c["calls"]), T, c["sr"], tuple(c["inputs"]), c["data"].tobytes()))
+
+
+def _ls_snippet(c):
+    sum_op, prod_op, _, _ = SEMIRINGS[c["sr"]]
+    dom = "[" + ", ".join(f"({n!r}, Bint[{s}])" for n, s in c["inputs"]) + "]"
+    return LS_PY.format(data=repr(c["data"].tolist()), inputs_dom=dom, sum_op=sum_op.__name__,
+                        prod_op=prod_op.__name__, T=c["T"], calls=repr(c["calls"]),
+                        sizes=repr({"p": c["S"], "c": c["S"], "b0": c["B"], "rp": c["S"], "rc": c["S"], "rb": c["B"]}))
+
+
+def lazy_subs_grid(ctx, use_driver=True):
+    """every combination rename kind x value target x value kind x one/two calls, batch substitution rotating"""
+    bs = ["none", "num", "ten", "rename"]
+    i = 0
+    for rk in LS_RENAMES:
+        for target in ("other", "renamed-to", "both", "none"):
+            for vk in ("num", "ten"):
+                for ncalls in (1, 2):
+                    if target == "none" and vk == "ten":
+                        continue
+                    check_lazy_subs(ctx, gen_lazy_subs(ctx.rng, ctx.tier, (rk, target, vk, ncalls, bs[i % 4])),
+                                    use_driver=use_driver)
+                    i += 1
+
+
+# --------------------------------------------------------------------------------------
 # translator: the index expressions of sarkka_bilmes_product, as written in the source
 # --------------------------------------------------------------------------------------
 
@@ -1267,6 +1542,24 @@ def _sarkka_forms(fn_node):
     return out
 
 
+def _markov_subs_forms(tree):
+    """MarkovProduct.eager_subs: the rename / lazy split, the simultaneity guard and the new step_names, as written."""
+    import ast
+    out = dict(rename="", lazy="", guard="", guard_body="", step_names="")
+    cls = next((n for n in tree.body if isinstance(n, ast.ClassDef) and n.name == "MarkovProduct"), None)
+    fn = next((n for n in (cls.body if cls else []) if isinstance(n, ast.FunctionDef) and n.name == "eager_subs"), None)
+    if fn is None:
+        return out
+    for node in fn.body:
+        if isinstance(node, ast.Assign) and isinstance(node.targets[0], ast.Name):
+            if node.targets[0].id in ("rename", "lazy", "step_names"):
+                out[node.targets[0].id] = ast.unparse(node.value)
+        if isinstance(node, ast.If) and "lazy" in ast.unparse(node.test) and "rename" in ast.unparse(node.test):
+            out["guard"] = ast.unparse(node.test)
+            out["guard_body"] = "; ".join(ast.unparse(x) for x in node.body)
+    return out
+
+
 def extract(ctx):
     """Regenerate lean/FunsorVerif/Gen/C10Sarkka.lean from /repo/funsor/sum_product.py (AST of the file, cross-checked
     with the source of the live function): the expressions the model transcribes — period, slice_t, the block shift,
@@ -1290,8 +1583,22 @@ def extract(ctx):
 
     def q(x):
         return '"' + x.replace("\\", "\\\\").replace('"', '\\"') + '"'
+    mforms = _markov_subs_forms(tree)
+    try:
+        live_cls = ast.parse(textwrap.dedent(inspect.getsource(sp.MarkovProduct)))
+        if _markov_subs_forms(live_cls) != mforms:
+            ctx.infra_errors.append("C10 extract: live MarkovProduct.eager_subs differs from the file on disk")
+    except (OSError, TypeError, AttributeError) as ex:
+        ctx.infra_errors.append(f"C10 extract: cannot read live source of MarkovProduct: {ex}")
     lines = ["/- GENERATED by fv/harness/c10.py:extract from /repo/funsor/sum_product.py on every run. Do not edit. -/",
              "namespace FV.Gen.C10", "",
+             "/-- MarkovProduct.eager_subs, as written -/",
+             f"def subsRename : String := {q(mforms['rename'])}",
+             f"def subsLazy : String := {q(mforms['lazy'])}",
+             f"def subsGuard : String := {q(mforms['guard'])}",
+             f"def subsGuardBody : String := {q(mforms['guard_body'])}",
+             f"def subsStepNames : String := {q(mforms['step_names'])}",
+             "",
              "/-- index expressions of sarkka_bilmes_product, as written -/",
              f"def period : String := {q(forms['period'])}",
              f"def sliceT : String := {q(forms['slice_t'])}",
@@ -1310,6 +1617,7 @@ def extract(ctx):
     if not out.exists() or out.read_text() != txt:
         out.write_text(txt)
     ctx.extra["sarkka_forms"] = forms
+    ctx.extra["markov_subs_forms"] = mforms
 
 
 def exhaustive_small(ctx):
@@ -1341,7 +1649,10 @@ def correspond(ctx):
                 "1-2 variables (own lag sets, possibly none), sizes 1-3, optional global input, num_periods 1..3, "
                 "5 semirings; _get_shift/_shift_name vs the Lean string functions; MarkovProduct with empty step "
                 "(time-dependent and not, eager/lazy/reflect+reinterpret) and MarkovProduct(...)(**renaming) "
-                "(fresh names, prev/curr swaps, batch renames); (logaddexp, add) chains and logaddexp reductions on integer "
+                "(fresh names, prev/curr swaps, batch renames); lazily built MarkovProduct substituted WHILE LAZY (rename "
+                "prev->curr / curr->prev / swap / fresh x Number or index-Tensor for the other step variable / the renamed-to "
+                "name / batch inputs, in one call and in two calls) then reinterpreted, against the fold with simultaneous-"
+                "substitution semantics; (logaddexp, add) chains and logaddexp reductions on integer "
                 "log-weights with per-time/batch/column/row/entry offsets in {0,+-50,+-400,+-800,+-2000}, -inf entries and "
                 "rows, against a per-cell-max log fold and the Lean max-add bounds.  Non-trivial = duration >= 3, joint state "
                 "size >= 2 and the implementation returned a value; distinct by full case content.")
@@ -1359,6 +1670,9 @@ def correspond(ctx):
         check_empty_step(ctx, gen_empty_step(ctx.rng, ctx.tier))
     for _ in range(120 if quick else 2000):
         check_rename(ctx, gen_rename_case(ctx.rng, ctx.tier))
+    lazy_subs_grid(ctx)
+    for _ in range(60 if quick else 1500):
+        check_lazy_subs(ctx, gen_lazy_subs(ctx.rng, ctx.tier))
     for _ in range(180 if quick else 3000):
         check_wide(ctx, gen_wide(ctx.rng, ctx.tier))
     for _ in range(100 if quick else 1000):
@@ -1390,6 +1704,10 @@ def search(ctx, broken):
         if len([f for f in ctx.failures if f.witness is not None]) > before:
             return
     sarkka_exhaustive(ctx, use_driver=False)
+    if len([f for f in ctx.failures if f.witness is not None]) > before:
+        return
+    for _ in range(6):
+        lazy_subs_grid(ctx, use_driver=False)
     if len([f for f in ctx.failures if f.witness is not None]) > before:
         return
     for _ in range(1200):
